@@ -567,6 +567,8 @@ def instances(tier):
                     if heavy and not thorough and (c == "signs" or o != idx) and (sum(o) % 3):
                         continue
                     add("Superposition", {"n": n, "idx": o, "c": c}, TWO if (c == "cplx" and o == idx and sum(o) % 4 == 1) else SEQ)
+                    if not thorough and o != idx and c != "cplx":
+                        continue
                     add("SumOfSlatersPrep", {"n": n, "idx": o, "c": c}, SEQ)
                     if o == idx and c == "cplx":
                         add("SumOfSlatersPrep", {"n": n, "idx": o, "c": c, "static": 1}, TWO if sum(o) % 4 == 1 else SEQ)
@@ -585,7 +587,8 @@ def instances(tier):
             add("SumOfSlatersPrep", {"n": 3, "idx": list(idx), "c": "cplx"}, SEQ)
     # MPSPrep
     for n in range(2, 5 if thorough else 4):
-        tg = [d for d in dense_targets(min(n, 3), tier) if d["kind"] in ("generic", "pair") or (d["kind"] == "support" and not d.get("real") and d["mask"] % 3 == 0)]
+        tg = [d for d in dense_targets(min(n, 3), tier) if d["kind"] == "generic" or (d["kind"] == "pair" and (thorough or d["ph"] in ("i", "g1")))
+              or (d["kind"] == "support" and not d.get("real") and d["mask"] % 3 == 0)]
         if n == 4:
             tg = [{"kind": "generic", "n": 4, "salt": 0}, {"kind": "support", "n": 4, "mask": 0b1000010000100001}, {"kind": "pair", "n": 4, "i": 0, "j": 15, "ph": "i", "w": "34"},
                   {"kind": "pair", "n": 4, "i": 3, "j": 5, "ph": "g1", "w": "eq"}]
@@ -673,10 +676,13 @@ def check(spec):
         op = Tm.build(a, W)
         stage = route
         return _check(spec, Tm, regs, W, op, variant)
-    except HARNESS:
-        raise
     except X.Unsupported:
         raise
+    except HARNESS as e:
+        if not (isinstance(e, ImportError) and "autoray" in str(e)):
+            raise
+        # autoray reports a missing backend function as ImportError: that is the implementation failing, not the harness
+        return bad(f"{t}[{variant}]:{stage}:exception:ImportError(autoray)", f"{e}"[:300], "no exception")
     except Exception as e:  # noqa: BLE001
         import traceback
 
